@@ -197,6 +197,66 @@ class Closure:
                     self.visit(g, cc, path + [func.qualname])
 
 
+def _check_param_draws(repo, res, cls):
+    from . import C09
+    from ..core.absint import Obj
+    from ..core.algebra import Undecided
+    ps = repo.resolve_setter(cls, "parameters")
+    if ps is None:
+        raise AnalysisError("parameters setter vanished")
+    names = C09.NAMES
+    n = 0
+    for form in ("frozen", "sampler-args", "sampler-kwargs"):
+        me = C09.model(names)
+        calls = []
+        draws = [0.5, -0.75, 0.25, -1.5]
+
+        def rvs(o, *a, **k):
+            calls.append(("rvs", a, dict(k)))
+            return [draws[len(calls) - 1]] * (a[0] if a and isinstance(a[0], int) else k.get("size", 1) or 1)
+
+        def sampler(*a, **k):
+            calls.append(("sampler", a, dict(k)))
+            return draws[len(calls) - 1]
+        if form == "frozen":
+            value = {"b": Obj("rv_frozen", tag="B"), "a": 1.25, "c": 3.75}
+        elif form == "sampler-args":
+            value = {"b": (("py", sampler), (2.0, 3.0)), "a": 1.25, "c": 3.75}
+        else:
+            value = {"b": (("py", sampler), {"shape": 2.0, "rate": 3.0}), "a": 1.25, "c": 3.75}
+        tag = "parameter-draws(%s)" % form
+        bad = None
+        try:
+            for rep in range(3):        # the serial loops assign the remembered dict once per run
+                kind, out = C09.run_setter(ps, me, value, names, extra={"rv_frozen.rvs": rvs})
+                got = list(me.attrs.get("_paramValue") or [])
+                if kind != "return":
+                    bad = "assignment %d raises %s" % (rep + 1, out)
+                elif len(calls) != rep + 1:
+                    bad = "assignment %d made %d draw(s) in total, expected one draw per assignment" % (rep + 1, len(calls))
+                elif got != [1.25, draws[rep], 3.75]:
+                    bad = "assignment %d drew %s but the evaluation values are %s: the run does not use the value drawn for it" % (rep + 1, draws[rep], got)
+                else:
+                    c = calls[-1]
+                    if c[2].get("random_state") is not None:
+                        bad = "the draw is given a private random_state=%r" % (c[2]["random_state"],)
+                    elif form == "frozen" and not (c[1] == (1,) or c[2].get("size") == 1):
+                        bad = "rvs called with %r %r, expected one value" % (c[1], c[2])
+                    elif form == "sampler-args" and not (c[1] == (1, 2.0, 3.0) and not c[2]):
+                        bad = "sampler called with %r %r, expected (1, *args)" % (c[1], c[2])
+                    elif form == "sampler-kwargs" and not (c[1] == (1,) and c[2] == {"shape": 2.0, "rate": 3.0}):
+                        bad = "sampler called with %r %r, expected (1, **kwargs)" % (c[1], c[2])
+                if bad:
+                    break
+        except Undecided as e:
+            res.undecided("R-RNG", ps, tag, "outside the modelled subset: %s" % e)
+            continue
+        n += 1
+        res.check(bad is None, "R-RNG", ps, tag, "each assignment draws one fresh value from the supplied distribution (global stream) and installs it",
+                  "%s form: %s" % (form, bad), node=ps.node)
+    res.floor("random-parameter input forms interpreted", n, 3)
+
+
 def check(repo, res, tier):
     res.rule("R-RNG", "with seed=None / parallel=False only numpy's global generator is reachable; no local generator")
     res.rule("R-PURE", "initial state copied; steppers do not modify their input state in place")
@@ -226,14 +286,7 @@ def check(repo, res, tier):
             res.check(ok, "R-RNG", func, "draw(%s)<-%s" % (callee, name), "%s draws from numpy's global generator" % callee,
                       "%s is given random_state=%s" % (callee, norm(rs)), node=c)
     res.floor("random draws reachable from the serial entry points", total_draws, 3)
-    # specific: the stochastic entry must reach the exponential and Poisson samplers
     f = repo.resolve_method(cls, "solve_stochast")
-    cl = Closure(repo)
-    cl.visit(f, {"parallel": False}, [])
-    reached = {callee for _, _, callee, _, _ in cl.draws}
-    res.check({"np.random.exponential", "np.random.poisson"} <= reached, "R-RNG", f, "samplers-reached",
-              "serial stochastic runs reach np.random.exponential and np.random.poisson",
-              "serial stochastic runs reach %s: the global exponential/Poisson samplers are not on the path" % sorted(reached))
     # positive control: the parallel branch must be seen to construct an unseeded RandomState
     cl = Closure(repo)
     cl.visit(f, {"parallel": True}, [])
@@ -242,15 +295,9 @@ def check(repo, res, tier):
         res.undecided("R-RNG", f, "positive-control", "the query no longer finds the RandomState() of the parallel branch: the rule would pass vacuously")
     else:
         res.holds("R-RNG", f, "positive-control", "the same query finds %s on the parallel branch (%s)" % (norm(found[0][1]), " -> ".join(found[0][3])))
-    # random parameters: the setter draws through rv.rvs / the sampler with no private generator
-    ps = repo.resolve_setter(cls, "parameters")
-    cfg, df = cfg_of(ps), dataflow_of(ps)
-    draws = [(n, c, callee) for n, c, callee in C.calls(ps) if callee.endswith(".rvs") or norm(c.func).startswith("value[0]")]
-    res.check(len(draws) >= 3, "R-RNG", ps, "parameter-draws", "parameter draws: frozen .rvs(1) and (sampler, args) calls",
-              "expected the frozen-distribution and (sampler, args) draws in the parameters setter, found %d" % len(draws))
-    for n, c, callee in draws:
-        rs = kwarg(c, "random_state")
-        res.check(rs is None, "R-RNG", ps, "draw(%s)" % norm(c)[:40], "no private random_state", "random_state=%s passed" % norm(rs), node=c)
+    # random parameters: every assignment of a distribution-valued dict draws exactly one fresh value per random parameter through
+    # the distribution's own rvs / the supplied sampler (numpy's global stream: no private random_state) and installs that value
+    _check_param_draws(repo, res, cls)
 
     # ---------------------------------------------------------------- R-PURE
     # a repeated seeded run reproduces the first one only if a run leaves nothing behind: two consecutive runs of _jump on one model
